@@ -19,6 +19,16 @@ import (
 	sdk "github.com/cosmos/cosmos-sdk/types"
 )
 
+var dbgMu sync.Mutex
+var dbgViews = map[int64]string{}
+
+func minInt(a, b int) int {
+	if a < b {
+		return a
+	}
+	return b
+}
+
 type ConcJob struct {
 	ID      string      `json:"id"`
 	Cfg     GenesisOpts `json:"cfg"`
@@ -54,11 +64,31 @@ func runConcurrent(job *ConcJob, out *bufio.Writer) error {
 		if err != nil {
 			return 0, "", true, false
 		}
-		return ctx.BlockHeight(), short([]byte(c.customDigestAt(ctx, vo))), false, false
+		g, it := c.splitDigest(ctx, vo)
+		if os.Getenv("VERIF_DEBUG") != "" {
+			txt := g + it
+			dbgMu.Lock()
+			hh := ctx.BlockHeight()
+			if prev, ok := dbgViews[hh]; ok && prev != txt {
+				fmt.Fprintf(os.Stderr, "MISMATCH height %d (req %d)\n", hh, h)
+			} else if !ok {
+				dbgViews[hh] = txt
+			}
+			dbgMu.Unlock()
+		}
+		// "<digest of single-item answers>/<digest of listings>"
+		return ctx.BlockHeight(), short([]byte(g)) + "/" + short([]byte(it)), false, false
 	}
+	dbgMu.Lock()
+	dbgViews = map[int64]string{}
+	dbgMu.Unlock()
 	base := c.App.LastBlockHeight()
 	_, d0, _, _ := digestAt(base)
-	add(M{"seq": next(), "ev": "start", "height": int(base), "digest": d0, "run": job.ID})
+	mode := "fastnode"
+	if job.Cfg.NoFastNode {
+		mode = "nofast"
+	}
+	add(M{"seq": next(), "ev": "start", "height": int(base), "digest": d0, "run": job.ID, "mode": mode})
 	var ended int64 = base
 	var abciMu sync.Mutex // CometBFT's local ABCI client serialises consensus and mempool calls; the gRPC query path is NOT under it
 	done := make(chan struct{})
